@@ -13,3 +13,16 @@ package state
 //@   ensures !haskey(pinset, c) ==> err != nil
 //@   ensures err == ErrNotFound ==> !haskey(pinset, c)
 //@   modifies nothing
+
+// the write side of the state, over the same abstract pinset (dsstate implements it over a datastore, see dsstate contracts)
+//@ interface WriteOnly.Add(ctx, pin)
+//@   ensures err == nil ==> haskey(pinset, pin.Cid) && pinset[pin.Cid] == *pin
+//@   ensures err == nil ==> forall c cid.Cid :: c != pin.Cid ==> (haskey(pinset, c) <==> haskey(old(pinset), c)) && pinset[c] == old(pinset)[c]
+//@   ensures err != nil ==> pinset == old(pinset)
+//@   modifies pinset
+
+//@ interface WriteOnly.Rm(ctx, c)
+//@   ensures err == nil ==> !haskey(pinset, c)
+//@   ensures forall x cid.Cid :: x != c ==> (haskey(pinset, x) <==> haskey(old(pinset), x)) && pinset[x] == old(pinset)[x]
+//@   ensures err != nil ==> pinset == old(pinset)
+//@   modifies pinset
